@@ -766,6 +766,174 @@ Definition src_opt_ne_U64 : list effect :=
 Definition src_opt_ne_U8 : list effect :=
   [ (Return (ECond (ECond (ECond (ECond (ECond (ECmp CEq (ECast I32 (EVar "lhs.val")) (ECast I32 (EVar "null_value()"))) (ELit (1)) (ECond (ECmp CNe (ECast I32 (EVar "lhs.val")) (ECast I32 (EVar "lhs.val"))) (ECmp CNe (ECast I32 (EVar "null_value()")) (ECast I32 (EVar "null_value()"))) (ELit (0)))) (ELit (0)) (ELit (1))) (ECond (ECond (ECmp CEq (ECast I32 (EVar "rhs.val")) (ECast I32 (EVar "null_value()"))) (ELit (1)) (ECond (ECmp CNe (ECast I32 (EVar "rhs.val")) (ECast I32 (EVar "rhs.val"))) (ECmp CNe (ECast I32 (EVar "null_value()")) (ECast I32 (EVar "null_value()"))) (ELit (0)))) (ELit (0)) (ELit (1))) (ELit (0))) (ECmp CEq (ECast I32 (EVar "lhs.val")) (ECast I32 (EVar "rhs.val"))) (ECmp CEq (ECast I32 (ECond (ECond (ECmp CEq (ECast I32 (EVar "lhs.val")) (ECast I32 (EVar "null_value()"))) (ELit (1)) (ECond (ECmp CNe (ECast I32 (EVar "lhs.val")) (ECast I32 (EVar "lhs.val"))) (ECmp CNe (ECast I32 (EVar "null_value()")) (ECast I32 (EVar "null_value()"))) (ELit (0)))) (ELit (0)) (ELit (1)))) (ECast I32 (ECond (ECond (ECmp CEq (ECast I32 (EVar "rhs.val")) (ECast I32 (EVar "null_value()"))) (ELit (1)) (ECond (ECmp CNe (ECast I32 (EVar "rhs.val")) (ECast I32 (EVar "rhs.val"))) (ECmp CNe (ECast I32 (EVar "null_value()")) (ECast I32 (EVar "null_value()"))) (ELit (0)))) (ELit (0)) (ELit (1)))))) (ELit (0)) (ELit (1)))) ].
 
+Definition src_req_eq_I16 : list effect :=
+  [ (Return (ECmp CEq (ECast I32 (EVar "lhs.val")) (ECast I32 (EVar "rhs.val")))) ].
+
+Definition src_req_eq_I32 : list effect :=
+  [ (Return (ECmp CEq (EVar "lhs.val") (EVar "rhs.val"))) ].
+
+Definition src_req_eq_I64 : list effect :=
+  [ (Return (ECmp CEq (EVar "lhs.val") (EVar "rhs.val"))) ].
+
+Definition src_req_eq_I8 : list effect :=
+  [ (Return (ECmp CEq (ECast I32 (EVar "lhs.val")) (ECast I32 (EVar "rhs.val")))) ].
+
+Definition src_req_eq_U16 : list effect :=
+  [ (Return (ECmp CEq (ECast I32 (EVar "lhs.val")) (ECast I32 (EVar "rhs.val")))) ].
+
+Definition src_req_eq_U32 : list effect :=
+  [ (Return (ECmp CEq (EVar "lhs.val") (EVar "rhs.val"))) ].
+
+Definition src_req_eq_U64 : list effect :=
+  [ (Return (ECmp CEq (EVar "lhs.val") (EVar "rhs.val"))) ].
+
+Definition src_req_eq_U8 : list effect :=
+  [ (Return (ECmp CEq (ECast I32 (EVar "lhs.val")) (ECast I32 (EVar "rhs.val")))) ].
+
+Definition src_req_ge_I16 : list effect :=
+  [ (Return (ECmp CGe (ECast I32 (EVar "lhs.val")) (ECast I32 (EVar "rhs.val")))) ].
+
+Definition src_req_ge_I32 : list effect :=
+  [ (Return (ECmp CGe (EVar "lhs.val") (EVar "rhs.val"))) ].
+
+Definition src_req_ge_I64 : list effect :=
+  [ (Return (ECmp CGe (EVar "lhs.val") (EVar "rhs.val"))) ].
+
+Definition src_req_ge_I8 : list effect :=
+  [ (Return (ECmp CGe (ECast I32 (EVar "lhs.val")) (ECast I32 (EVar "rhs.val")))) ].
+
+Definition src_req_ge_U16 : list effect :=
+  [ (Return (ECmp CGe (ECast I32 (EVar "lhs.val")) (ECast I32 (EVar "rhs.val")))) ].
+
+Definition src_req_ge_U32 : list effect :=
+  [ (Return (ECmp CGe (EVar "lhs.val") (EVar "rhs.val"))) ].
+
+Definition src_req_ge_U64 : list effect :=
+  [ (Return (ECmp CGe (EVar "lhs.val") (EVar "rhs.val"))) ].
+
+Definition src_req_ge_U8 : list effect :=
+  [ (Return (ECmp CGe (ECast I32 (EVar "lhs.val")) (ECast I32 (EVar "rhs.val")))) ].
+
+Definition src_req_gt_I16 : list effect :=
+  [ (Return (ECmp CGt (ECast I32 (EVar "lhs.val")) (ECast I32 (EVar "rhs.val")))) ].
+
+Definition src_req_gt_I32 : list effect :=
+  [ (Return (ECmp CGt (EVar "lhs.val") (EVar "rhs.val"))) ].
+
+Definition src_req_gt_I64 : list effect :=
+  [ (Return (ECmp CGt (EVar "lhs.val") (EVar "rhs.val"))) ].
+
+Definition src_req_gt_I8 : list effect :=
+  [ (Return (ECmp CGt (ECast I32 (EVar "lhs.val")) (ECast I32 (EVar "rhs.val")))) ].
+
+Definition src_req_gt_U16 : list effect :=
+  [ (Return (ECmp CGt (ECast I32 (EVar "lhs.val")) (ECast I32 (EVar "rhs.val")))) ].
+
+Definition src_req_gt_U32 : list effect :=
+  [ (Return (ECmp CGt (EVar "lhs.val") (EVar "rhs.val"))) ].
+
+Definition src_req_gt_U64 : list effect :=
+  [ (Return (ECmp CGt (EVar "lhs.val") (EVar "rhs.val"))) ].
+
+Definition src_req_gt_U8 : list effect :=
+  [ (Return (ECmp CGt (ECast I32 (EVar "lhs.val")) (ECast I32 (EVar "rhs.val")))) ].
+
+Definition src_req_in_range_I16 : list effect :=
+  [ (Return (ECond (ECmp CLe (ECast I32 (EVar "min_value()")) (ECast I32 (EVar "val"))) (ECmp CLe (ECast I32 (EVar "val")) (ECast I32 (EVar "max_value()"))) (ELit (0)))) ].
+
+Definition src_req_in_range_I32 : list effect :=
+  [ (Return (ECond (ECmp CLe (EVar "min_value()") (EVar "val")) (ECmp CLe (EVar "val") (EVar "max_value()")) (ELit (0)))) ].
+
+Definition src_req_in_range_I64 : list effect :=
+  [ (Return (ECond (ECmp CLe (EVar "min_value()") (EVar "val")) (ECmp CLe (EVar "val") (EVar "max_value()")) (ELit (0)))) ].
+
+Definition src_req_in_range_I8 : list effect :=
+  [ (Return (ECond (ECmp CLe (ECast I32 (EVar "min_value()")) (ECast I32 (EVar "val"))) (ECmp CLe (ECast I32 (EVar "val")) (ECast I32 (EVar "max_value()"))) (ELit (0)))) ].
+
+Definition src_req_in_range_U16 : list effect :=
+  [ (Return (ECond (ECmp CLe (ECast I32 (EVar "min_value()")) (ECast I32 (EVar "val"))) (ECmp CLe (ECast I32 (EVar "val")) (ECast I32 (EVar "max_value()"))) (ELit (0)))) ].
+
+Definition src_req_in_range_U32 : list effect :=
+  [ (Return (ECond (ECmp CLe (EVar "min_value()") (EVar "val")) (ECmp CLe (EVar "val") (EVar "max_value()")) (ELit (0)))) ].
+
+Definition src_req_in_range_U64 : list effect :=
+  [ (Return (ECond (ECmp CLe (EVar "min_value()") (EVar "val")) (ECmp CLe (EVar "val") (EVar "max_value()")) (ELit (0)))) ].
+
+Definition src_req_in_range_U8 : list effect :=
+  [ (Return (ECond (ECmp CLe (ECast I32 (EVar "min_value()")) (ECast I32 (EVar "val"))) (ECmp CLe (ECast I32 (EVar "val")) (ECast I32 (EVar "max_value()"))) (ELit (0)))) ].
+
+Definition src_req_le_I16 : list effect :=
+  [ (Return (ECmp CLe (ECast I32 (EVar "lhs.val")) (ECast I32 (EVar "rhs.val")))) ].
+
+Definition src_req_le_I32 : list effect :=
+  [ (Return (ECmp CLe (EVar "lhs.val") (EVar "rhs.val"))) ].
+
+Definition src_req_le_I64 : list effect :=
+  [ (Return (ECmp CLe (EVar "lhs.val") (EVar "rhs.val"))) ].
+
+Definition src_req_le_I8 : list effect :=
+  [ (Return (ECmp CLe (ECast I32 (EVar "lhs.val")) (ECast I32 (EVar "rhs.val")))) ].
+
+Definition src_req_le_U16 : list effect :=
+  [ (Return (ECmp CLe (ECast I32 (EVar "lhs.val")) (ECast I32 (EVar "rhs.val")))) ].
+
+Definition src_req_le_U32 : list effect :=
+  [ (Return (ECmp CLe (EVar "lhs.val") (EVar "rhs.val"))) ].
+
+Definition src_req_le_U64 : list effect :=
+  [ (Return (ECmp CLe (EVar "lhs.val") (EVar "rhs.val"))) ].
+
+Definition src_req_le_U8 : list effect :=
+  [ (Return (ECmp CLe (ECast I32 (EVar "lhs.val")) (ECast I32 (EVar "rhs.val")))) ].
+
+Definition src_req_lt_I16 : list effect :=
+  [ (Return (ECmp CLt (ECast I32 (EVar "lhs.val")) (ECast I32 (EVar "rhs.val")))) ].
+
+Definition src_req_lt_I32 : list effect :=
+  [ (Return (ECmp CLt (EVar "lhs.val") (EVar "rhs.val"))) ].
+
+Definition src_req_lt_I64 : list effect :=
+  [ (Return (ECmp CLt (EVar "lhs.val") (EVar "rhs.val"))) ].
+
+Definition src_req_lt_I8 : list effect :=
+  [ (Return (ECmp CLt (ECast I32 (EVar "lhs.val")) (ECast I32 (EVar "rhs.val")))) ].
+
+Definition src_req_lt_U16 : list effect :=
+  [ (Return (ECmp CLt (ECast I32 (EVar "lhs.val")) (ECast I32 (EVar "rhs.val")))) ].
+
+Definition src_req_lt_U32 : list effect :=
+  [ (Return (ECmp CLt (EVar "lhs.val") (EVar "rhs.val"))) ].
+
+Definition src_req_lt_U64 : list effect :=
+  [ (Return (ECmp CLt (EVar "lhs.val") (EVar "rhs.val"))) ].
+
+Definition src_req_lt_U8 : list effect :=
+  [ (Return (ECmp CLt (ECast I32 (EVar "lhs.val")) (ECast I32 (EVar "rhs.val")))) ].
+
+Definition src_req_ne_I16 : list effect :=
+  [ (Return (ECmp CNe (ECast I32 (EVar "lhs.val")) (ECast I32 (EVar "rhs.val")))) ].
+
+Definition src_req_ne_I32 : list effect :=
+  [ (Return (ECmp CNe (EVar "lhs.val") (EVar "rhs.val"))) ].
+
+Definition src_req_ne_I64 : list effect :=
+  [ (Return (ECmp CNe (EVar "lhs.val") (EVar "rhs.val"))) ].
+
+Definition src_req_ne_I8 : list effect :=
+  [ (Return (ECmp CNe (ECast I32 (EVar "lhs.val")) (ECast I32 (EVar "rhs.val")))) ].
+
+Definition src_req_ne_U16 : list effect :=
+  [ (Return (ECmp CNe (ECast I32 (EVar "lhs.val")) (ECast I32 (EVar "rhs.val")))) ].
+
+Definition src_req_ne_U32 : list effect :=
+  [ (Return (ECmp CNe (EVar "lhs.val") (EVar "rhs.val"))) ].
+
+Definition src_req_ne_U64 : list effect :=
+  [ (Return (ECmp CNe (EVar "lhs.val") (EVar "rhs.val"))) ].
+
+Definition src_req_ne_U8 : list effect :=
+  [ (Return (ECmp CNe (ECast I32 (EVar "lhs.val")) (ECast I32 (EVar "rhs.val")))) ].
+
 Definition src_set_bit_U16 : list effect :=
   [ (Store "bits" (ECast U16 (EBin OOr I32 (EBin OAnd I32 (ECast I32 (EVar "bits")) (ENot I32 (EShl I32 (ECast I32 (ECast U16 (ELit (1)))) (ECast I32 (EVar "n"))))) (EShl I32 (ECast I32 (ECast U16 (EVar "b"))) (ECast I32 (EVar "n")))))) ].
 
